@@ -641,5 +641,5 @@ MANIFEST = {
     "level": "Static decision of the address logic for all images/bases/blob ranges by evaluating the block loops on scaled finite models (complete for the comparisons involved) and "
              "of the layouts/counter units by symbolic extraction. Cipher outputs are not computed.",
     "note": "Trusted: the evaluator, crypto wrappers (C09). Not decided: hardware decryption at value level.",
-    "technique": "static analysis: order-type predicates, abstract evaluation of block loops on finite models, symbolic byte layout, struct symmetry, finite-model evaluation of the three cipher loops, the key blob and the BEE block with a keystream model (interprocedural), export/parse round trip of the BEE blocks interpreted on model objects (E19), PRDB bounding box over FAC orders, KEK scrambling and IEE key blob as whole-function models",
+    "technique": "static analysis: order-type predicates, abstract evaluation of block loops on finite models, symbolic byte layout, struct symmetry, finite-model evaluation of the three cipher loops, the key blob and the BEE block with a keystream model (interprocedural), export/parse round trip of the BEE blocks interpreted on model objects (E19), PRDB bounding box over FAC orders, KEK scrambling and IEE key blob as whole-function models, export-keeps-plaintext (object state before/after an interpreted export)",
 }
